@@ -7,6 +7,7 @@ mod interpose;
 mod model;
 mod observe;
 mod par;
+mod parser;
 mod pm;
 mod props;
 mod report;
